@@ -4,13 +4,19 @@ from typing import Any, Dict, List
 
 from icv.harness import Runtime, ErrInst
 
-SELF_KINDS = ("method", "setter", "init", "getter", "deleter")
+SELF_KINDS = ("method", "setter", "init", "getter", "deleter", "protected", "private", "dunder", "repr", "setattr")
+
+
+def member_name(prog: dict, f: int) -> str:
+    kind = prog["fn"][f - 1]["kind"]
+    return {"init": "__init__", "new": "__new__", "protected": "_m{}".format(f), "private": "__m{}".format(f),
+            "dunder": "__call__", "repr": "__repr__", "setattr": "__setattr__"}.get(kind, "m{}".format(f))
 
 
 def _params(kind: str) -> List[str]:
     if kind in ("func", "static", "class", "new"):
         return ["x"]
-    if kind in ("getter", "deleter"):
+    if kind in ("getter", "deleter", "repr"):
         return ["self"]
     return ["self", "x"]
 
@@ -140,10 +146,18 @@ def _fn_source(prog: dict, f: int, indent: str, groups: List[List[int]], with_po
         lines += [indent + d for d in deco_all]
         lines.append("{}{} {}(x):".format(indent, adef, name))
         lines.append("{}    return {}({}, None, x)".format(indent, body_call, f))
-    elif kind == "method":
+    elif kind in ("method", "protected", "private", "dunder"):
         lines += [indent + d for d in decos + snap_decos + post_decos]
         lines.append("{}{} {}(self, x):".format(indent, adef, name))
         lines.append("{}    return {}({}, self, x)".format(indent, body_call, f))
+    elif kind == "repr":
+        lines.append("{}def __repr__(self):".format(indent))
+        lines.append("{}    H.body({}, self, None)".format(indent, f))
+        lines.append("{}    return 'K'".format(indent))
+    elif kind == "setattr":
+        lines.append("{}def __setattr__(self, name, x):".format(indent))
+        lines.append("{}    H.body({}, self, x)".format(indent, f))
+        lines.append("{}    object.__setattr__(self, name, x)".format(indent))
     elif kind == "init":
         lines += [indent + d for d in decos + snap_decos + post_decos]
         lines.append("{}def __init__(self, x):".format(indent))
@@ -210,14 +224,20 @@ def gen_source(prog: dict) -> str:
     for k in range(1, ncls + 1):
         kc = prog["cls"][k - 1]
         levels = max([1] + [len(prog["fn"][f - 1]["pre"]) for f in members[k]])
-        for c in kc["inv"]:
+        kbase = kc.get("base", 0)
+        base_inv = prog["cls"][kbase - 1]["inv"] if kbase else []
+        own_inv = [c for c in kc["inv"] if c not in base_inv]
+        for c in own_inv:
             lines += _cond_def(prog, c, "inv", 0, ["self"], "")
         for lvl in range(1, levels + 1):
             if lvl == 1:
-                for c in reversed(kc["inv"]):
+                for c in reversed(own_inv):
                     on = "ALL" if (c in kc["oncall"] and c in kc["onset"]) else ("SETATTR" if c in kc["onset"] else "CALL")
                     lines.append(_decorator(prog, c, "inv", 0, ["self"], check_on=on if on != "CALL" else ""))
-                base = "icontract.DBC" if (kc.get("dbc", True) or levels > 1) else "object"
+                if kbase:
+                    base = "H.classes[{}]".format(kbase)
+                else:
+                    base = "icontract.DBC" if (kc.get("dbc", True) or levels > 1) else "object"
             else:
                 base = "K{}_{}".format(k, lvl - 1)
             lines.append("class K{}_{}({}):".format(k, lvl, base))
@@ -238,7 +258,7 @@ def gen_source(prog: dict) -> str:
                 j = lvl - first + 1  # index of the group declared at this level
                 group = fn["pre"][j - 1] if n >= j else []
                 with_post = (lvl == first)
-                name = {"init": "__init__", "new": "__new__"}.get(fn["kind"], "m{}".format(f))
+                name = member_name(prog, f)
                 body += _fn_source(prog, f, "    ", group, with_post, name)
             if not body:
                 body = ["    pass"]
@@ -247,7 +267,9 @@ def gen_source(prog: dict) -> str:
         lines.append("H.classes[{}] = K{}_{}".format(k, k, levels))
         for f in members[k]:
             fn = prog["fn"][f - 1]
-            name = {"init": "__init__", "new": "__new__"}.get(fn["kind"], "m{}".format(f))
+            name = member_name(prog, f)
+            if fn["kind"] == "private":
+                name = "_K{}_{}{}".format(k, levels, name)
             lines.append("H.fn_class[{}] = K{}_{}; H.fn_name[{}] = {!r}".format(f, k, levels, f, name))
         lines.append("")
     return "\n".join(lines) + "\n"
